@@ -242,7 +242,22 @@ def r_panic(ctx):
 def _norm_site(what):
     """expression text with receiver paths reduced to their last segment (a hoisted local or an extracted helper keeps it)"""
     w = re.sub(r"\b(?:self|\w+)(?:\.\w+)*\.(\w+)(?=[\[.])", r"\1", what)
-    return re.sub(r"\s+", "", w)
+    # local names are not part of a site's identity: `buf[start..]` and `payload[filled..]` are the same site after a rename
+    names = {}
+    out = []
+    toks = re.findall(r"[A-Za-z_][A-Za-z0-9_]*|\.\.=?|::|\s+|.", w)
+    for i, t in enumerate(toks):
+        if t.isspace():
+            continue
+        if re.fullmatch(r"[a-z_][a-z0-9_]*", t) and t not in ("as", "mut", "ref", "self", "true", "false") \
+                and not re.fullmatch(r"[iuf](8|16|32|64|128|size)", t):
+            prev = next((x for x in reversed(toks[:i]) if not x.isspace()), "")
+            nxt = next((x for x in toks[i + 1:] if not x.isspace()), "")
+            if prev not in (".", "::") and nxt not in ("(", "::", "!") and not (prev and prev[-1].isdigit() and False):
+                t = names.setdefault(t, "$%d" % (len(names) + 1))
+        out.append(t)
+    w = "".join(out)
+    return re.sub(r"\bas\b", " as ", w)
 
 
 def _suspicious_index(what):
@@ -637,7 +652,9 @@ def r_progress(ctx):
                 continue
             key = "%s|%s" % (w, r["occur"])
             ctx.site(rid, key, r["file"], r["line"], {"verdict": r["verdict"]})
-            if r["verdict"].startswith("unknown"):
+            if r["verdict"].startswith("unknown") and "step limit" not in r["verdict"]:
+                ctx.incomplete_msg(rid, "%s: the run could not be evaluated (%s)" % (key, r["verdict"]))
+            elif r["verdict"].startswith("unknown"):
                 ctx.violation(rid, key, r["file"], r["line"], "%s seq_match_entry with occurrence %s on a zero-width entry: the abstract run does not "
                               "terminate within 40 iterations (%s)" % (w, r["occur"], r["verdict"]))
             elif r["verdict"] != r["expected"]:
@@ -736,6 +753,27 @@ def vs_names(vs, file, qual):
     return out
 
 
+def _widened_operands(key):
+    """`a + b` / `a - b` whose operands are i128 conversions of narrower integers (`i128::from(x)`, `x as i128`) or i128 literals"""
+    op, rhs = ARITH_TOP.get(key, ("", ""))
+    if op not in ("+", "-"):
+        return False
+    expr = key.split("|", 2)[2]
+    if len(expr) >= 90 or not expr.endswith(rhs):
+        return False
+    lhs = expr[:len(expr) - len(rhs)].rstrip()
+    if not lhs.endswith(op):
+        return False
+    lhs = lhs[:-len(op)].strip()
+
+    def wide(t):
+        t = t.strip()
+        while t.startswith("(") and t.endswith(")"):
+            t = t[1:-1].strip()
+        return bool(re.fullmatch(r"-?\d+_?i128", t) or re.fullmatch(r"i128::from\([^()]*\)", t) or re.fullmatch(r"\*?[\w.]+\s+as\s+i128", t))
+    return wide(lhs) and wide(rhs)
+
+
 def r_arith(ctx):
     rid = "C05.arith"
     ctx.rule(rid, "every integer/float arithmetic expression (+ - * << and their assigning forms) in non-test code of the cddl crate is in the "
@@ -756,7 +794,9 @@ def r_arith(ctx):
             # a site the table does not know (new code, or a reviewed expression whose text changed): decide it by provenance —
             # only arithmetic on numbers taken from the document or from schema literals can be driven to overflow by an input
             src = value_sources.get(key)
-            if src:
+            if src and _widened_operands(key):
+                ctx.site(rid, key + "|auto-widened", file, line, {"note": "both operands are 128-bit conversions of narrower integers or literals: + and - cannot leave the i128 range"})
+            elif src:
                 ctx.violation(rid, key, file, line, "unreviewed arithmetic on a number that comes from the document or the schema (%s): it must be "
                               "checked_*, saturating_* or widened — plain operators panic in overflow-checked builds and wrap otherwise" % src)
             elif ARITH_TOP.get(key, ("", ""))[0] in ("-", "-="):
